@@ -113,3 +113,29 @@ Example C04_example :
      forallb (fun ev => match ev with EvCall c _ => norename c | _ => true end) tr) in
   go "a"%string = (Ok tt, Some 2%nat, None, true) /\ go "z"%string = (Ok tt, Some 3%nat, None, true).
 Proof. vm_compute. split; reflexivity. Qed.
+
+(** Which call publishes (all responses, plain and sharded directories, with whatever
+    maintenance runs inside): Cache::set never issues a link - it publishes by rename only,
+    an unconditional overwrite that never degrades to "insert if absent"; Cache::put never
+    issues a rename - it publishes by link only and can never replace an entry.
+    (Proofs/PublishCall.v) *)
+From Kismet Require Import Spec.ClassMon Spec.Calm Proofs.PublishCall.
+Theorem C04_set_publishes_by_rename_only : forall cfg k v, allc nolink (cache_set cfg k v) anyc.
+Proof. exact public_set_never_links. Qed.
+
+Theorem C04_put_publishes_by_link_only : forall cfg k v, allc norename (cache_put cfg k v) anyc.
+Proof. exact public_put_never_renames. Qed.
+
+Theorem C04_set_never_links_on_every_run : forall cfg k v w o,
+  let '(_, _, _, tr) := run (cache_set cfg k v) w o in
+  Forall (fun ev => match ev with EvCall c _ => nolink c = true | _ => True end) tr.
+Proof. exact public_set_never_links_run. Qed.
+
+Theorem C04_put_never_renames_on_every_run : forall cfg k v w o,
+  let '(_, _, _, tr) := run (cache_put cfg k v) w o in
+  Forall (fun ev => match ev with EvCall c _ => norename c = true | _ => True end) tr.
+Proof. exact public_put_never_renames_run. Qed.
+
+Theorem C04_publishing_call_classes : forall p q,
+  nolink (CLink p q) = false /\ nolink (CRename p q) = true /\ norename (CRename p q) = false /\ norename (CLink p q) = true.
+Proof. intros. repeat split. Qed.
